@@ -17,7 +17,7 @@ BOUNDED = {
     "C08": "`concatenate(axis=1)` (Python loop over rows building a list of arrays), `ragged_slice` on 1-D / 2-D inputs, element types other than the abstract one for the padded matrix",
     "C09": "float / bool column-sum values (`mean(axis=0)` is proved as sum / col_counts over the callee contracts)",
     "C10": "differential histories (the history relation itself)",
-    "C11": "histories against a dict (composition of the proved constructor invariant, lookup and assignment contracts is a paper argument)",
+    "C11": "histories against a dict (one lookup and one assignment are lemmas over the proved contracts; the induction over operation sequences is a paper argument)",
     "C12": "totals end to end against `collections.Counter`",
     "C13": "cross-check only",
     "C14": "dtype matrix",
